@@ -256,6 +256,59 @@ def fr_flat(w, h, v, age, v2=None):
     return dict(a="frame", pix=[[v] * w for _ in range(h)], ffcAge=age, pix2=[[(v if v2 is None else v2)] * w for _ in range(h)])
 
 
+def gen_boot(rng, c):
+    """a camera that has just been powered on: no flat-field correction reported yet (LastFFCTime = 0) and TimeOn below
+    10 s, i.e. inside the FFC period by the rule TimeOn - LastFFCTime < 10 s; the scene warms up meanwhile.  The first
+    frame outside the period re-seeds the background; nothing before it may trigger."""
+    w, h, T = c["W"], c["H"], c["T"]
+    L = T + rng.choice([300, 600])
+    steps = []
+    nboot = rng.randint(2, 9)
+    for i in range(nboot):
+        v = L - 200 + 10 * i + rng.choice([0, 40])
+        steps.append(dict(a="frame", pix=[[max(1, v)] * w for _ in range(h)], ffcAge=1000 * (i + 1), neverFfc=True))
+    more = gen_stream(rng, c, rng.randint(8, 25), ffc=rng.random() < 0.3, resets=False)
+    t = 1000 * (nboot + 1)
+    for st in more:
+        if st["a"] == "frame" and st["ffcAge"] >= 10000 and rng.random() < 0.5:
+            t = max(t + 1000, 10000)
+            st["ffcAge"], st["neverFfc"] = t, True        # still no FFC since power-on, but TimeOn is past 10 s
+    return steps + more
+
+
+def gen_stale_diff(rng):
+    """targeted C09 pair for the two-comparison rule (use-one-diff-only off): stream 2 has one pixel moving in the last
+    frames before the FFC period (stream 1 is static there); after the period the same pixel moves ONCE - not motion by
+    the rule (the previous comparison saw nothing), unless a comparison result from before the period is still around."""
+    w, h = rng.randint(3, 5), rng.randint(3, 4)
+    e = rng.choice([0, 1]) if min(w, h) >= 3 else 0
+    c = dict(W=w, H=h, Edge=e, T=rng.choice([5, 1000]), Delta=rng.choice([5, 30]), Cnt=1, Gap=1, One=False, Warmer=rng.random() < 0.5,
+             Dyn=False, Tmin=0, Tmax=0, Preview=rng.choice([0, 1]))
+    L, D = c["T"] + 200, c["Delta"] + rng.choice([1, 50])
+    (py, px) = rng.choice(interior(w, h, e))
+    def fr(age, hot1=False, hot2=False):
+        st = fr_flat(w, h, L, age)
+        if hot1:
+            st["pix"][py][px] = L + D
+        if hot2:
+            st["pix2"][py][px] = L + D
+        return st
+    steps = [fr(60000) for _ in range(rng.randint(2, 5))]
+    k = rng.choice([1, 2, 3])                                  # stream 2: the pixel toggles on the last k frames before the period
+    for i in range(k):
+        steps.append(fr(60000, hot2=(i % 2 == (k - 1) % 2)))   # ... ending hot, so the last comparison before the period saw it move
+    steps += [fr(rng.choice([0, 2000, 9999])) for _ in range(rng.randint(1, 5))]
+    steps.append(fr(rng.choice([10000, 60000])))               # directly after the period
+    for i in range(rng.randint(0, 2)):
+        steps.append(fr(60000))
+    steps.append(fr(60000, hot1=True, hot2=True))              # one move after the period, both streams
+    steps += [fr(60000) for _ in range(rng.randint(2, 4))]
+    steps.append(fr(60000, hot1=True, hot2=True))
+    steps.append(fr(60000, hot1=True, hot2=True))
+    steps += [fr(60000) for _ in range(2)]
+    return dict(cfg=c, kind="history", steps=steps)
+
+
 def gen_across(rng, early=False):
     """targeted C09 pair (early: the FFC period begins and ends within the first frame-compare-gap frames of the stream,
     before the detector's history has wrapped once): identical from the first FFC-affected frame on, different scene level before it; the
@@ -366,7 +419,7 @@ def build_scripts(ctx, prop, tier):
                 pair_cold(rng, st, c); kind = "cold"
             scripts.append(dict(cfg=c, kind=kind, steps=st))
         elif prop == "C09" and i % 5 < 2:
-            scripts.append((gen_across(rng, early=(i % 20 == 6)) if i % 10 else gen_weight_memory(rng)))
+            scripts.append(gen_stale_diff(rng) if i % 20 == 11 else (gen_across(rng, early=(i % 20 == 6)) if i % 10 else gen_weight_memory(rng)))
         elif prop == "C09":
             c = rand_cfg(rng, dyn=rng.random() < 0.4)
             if rng.random() < 0.6:
@@ -377,6 +430,9 @@ def build_scripts(ctx, prop, tier):
             else:
                 kind = ""
             scripts.append(dict(cfg=c, kind=kind, steps=st))
+        elif i % 10 == 7:  # C15: power-on without an FFC yet
+            c = rand_cfg(rng, dyn=True)
+            scripts.append(dict(cfg=c, kind="", steps=gen_boot(rng, c)))
         else:  # C15
             c = rand_cfg(rng, dyn=True)
             scripts.append(dict(cfg=c, kind="", steps=gen_stream(rng, c, rng.randint(8, 40), ffc=rng.random() < 0.6)))
